@@ -146,7 +146,7 @@ func runSignBytes() {
 		pb := string(types.SignBytes(c, &types.Proposal{Height: 1, POLRound: -1}))
 		chains = append(chains, pb[len(`{"chain_id":"`):], c+`","proposal":{"block_parts_header":{"hash":"","total":0},"height":1,"pol_block_id":{},"pol_round":-1,"round":0}}`)
 	}
-	nRandChains := lib.Pick(40, 400)
+	nRandChains := lib.Pick(40, 200)
 	for i := 0; i < nRandChains; i++ {
 		g := newGen(lib.Rand("c18-sb-chain", int64(i)), 0)
 		chains = append(chains, g.str())
